@@ -362,6 +362,7 @@ def report(prop, tier, seed, mod, hs, agg, wall, timed_out):
             functions_encoded=[f"{a}:{c} {b}" for a, b, c in sorted(agg["functions"])],
             bounds=meta.get("bounds", {}).get(tier, meta.get("bounds", {})),
             outside_claim=meta.get("outside", []),
+            extra=meta.get("extra", {}),
             stubs=meta.get("stubs", []),
             solver="z3 " + _z3v(), exhaustive=exhaustive,
             known_findings_seen=sorted(known_hits), violations_found=len(vio_paths),
